@@ -3008,4 +3008,199 @@ theorem More.run (ops : List Op) : ∀ (s : St), More s → Good s → More (run
   | cons o os ih => intro s h hg; exact ih _ (h.stepY hg o) (hg.stepY o)
 
 
+
+
+/-! ### never silently discarded while the worker runs (C01, worker side) -/
+
+/-- a connection leaves the worker without having been handed to a service -/
+def Ev.isDiscard : Ev → Bool
+  | .released _ => true
+  | .dropped _ => true
+  | _ => false
+
+/-- the worker is running normally: not finished, not shutting down, no `Stop` waiting, the server is there -/
+def Running (s : St) : Prop :=
+  s.finished = false ∧ (∀ t sf tx, s.state ≠ .shutdown t sf tx) ∧ s.stopQ = [] ∧ s.stopOpen = true
+
+theorem availLoop_stopOpen (q : List Conn) : ∀ (s : St), (availLoop s q).1.stopOpen = s.stopOpen := by
+  have hsw : ∀ {s s1 : St} {r : Sweep}, sweep s = (s1, r) → s1.stopOpen = s.stopOpen := by
+    intro s s1 r h
+    have := sweepFrom_stopOpen s.n s 0 true
+    unfold sweep at h; rw [h] at this; exact this
+  induction q with
+  | nil =>
+    intro s
+    rcases h : sweep s with ⟨s1, r⟩
+    have h1 := hsw h
+    cases r with
+    | err i => rw [availLoop_nil_err h]; exact h1
+    | ok b => cases b with
+      | false => rw [availLoop_nil_false h]; exact h1
+      | true => cases hco : s1.chanOpen with
+        | true => rw [availLoop_nil_open h hco]; exact h1
+        | false => rw [availLoop_nil_closed h hco]; exact h1
+  | cons c q ih =>
+    intro s
+    rcases h : sweep s with ⟨s1, r⟩
+    have h1 := hsw h
+    cases r with
+    | err i => rw [availLoop_cons_err c q h]; exact h1
+    | ok b => cases b with
+      | false => rw [availLoop_cons_false c q h]; exact h1
+      | true =>
+        by_cases htok : c.2 < s1.n
+        · rw [availLoop_cons_call c q h htok, ih]; exact h1
+        · rw [availLoop_cons_bad c q h htok]; exact h1
+
+theorem nodiscard_of_PR {evs : List Ev} (h : ∀ e ∈ evs, e.isPR = true) : ∀ e ∈ evs, e.isDiscard = false := by
+  intro e he; have := h e he; cases e <;> simp_all [Ev.isPR, Ev.isDiscard]
+
+theorem LoopTrace.nodiscard {n : Nat} {tr : List Ev} {cs : List Conn} (h : LoopTrace n tr cs) : ∀ e ∈ tr, e.isDiscard = false := by
+  induction h with
+  | nil => simp
+  | cons c inc hsw _ _ ih =>
+    intro e he; simp only [List.mem_append, List.mem_cons] at he
+    rcases he with he | rfl | he
+    · obtain ⟨i, hi, rfl⟩ := List.getElem_of_mem he
+      obtain ⟨inc', h3⟩ := hsw.2 i (by rw [← hsw.1]; exact hi)
+      rw [List.getElem?_eq_getElem hi] at h3
+      simp at h3; rw [h3]; rfl
+    · rfl
+    · exact ih e he
+
+/-- a running worker stays running through the arm and discards nothing -/
+theorem arm_running {s : St} (hg : Good s) (hr : Running s) :
+    Running (arm s).1 ∧ ∃ evs, (arm s).1.log = s.log ++ evs ∧ ∀ e ∈ evs, e.isDiscard = false := by
+  obtain ⟨hf, hns, hq, ho⟩ := hr
+  have hsv := hg.svc
+  unfold SvcOK at hsv
+  rw [hf] at hsv; simp only [Bool.false_eq_true, false_or] at hsv
+  have hsw : ∀ {s1 : St} {r : Sweep}, sweep s = (s1, r) → s1.stopOpen = s.stopOpen := by
+    intro s1 r h
+    have := sweepFrom_stopOpen s.n s 0 true
+    unfold sweep at h; rw [h] at this; exact this
+  cases hst : s.state with
+  | shutdown t sf tx => exact absurd hst (hns t sf tx)
+  | unavailable =>
+    rw [hst] at hsv
+    rcases h : sweep s with ⟨s1, r⟩
+    have hc := sweep_n h
+    simp only [core, Prod.mk.injEq] at hc
+    obtain ⟨c1, c2, c3, c4, c5, c6, c7, c8, c9, c10, c11, c12, c13, c14, c15, c16⟩ := hc
+    have h1 := hsw h
+    cases r with
+    | ok b =>
+      obtain ⟨_, evs, d, e, _⟩ := sweep_ok_spec h hsv
+      cases b with
+      | true =>
+        rw [arm_unavail_true hst h]
+        exact ⟨⟨c13.trans hf, fun _ _ _ hh => (by cases hh), c6.trans hq, h1.trans ho⟩, evs, d, nodiscard_of_PR e.isPR⟩
+      | false =>
+        rw [arm_unavail_false hst h]
+        exact ⟨⟨c13.trans hf, fun t sf tx hh => (by rw [c3, hst] at hh; cases hh), c6.trans hq, h1.trans ho⟩, evs, d, nodiscard_of_PR e.isPR⟩
+    | err i =>
+      obtain ⟨_, _, _, evs, inc, d, e⟩ := sweep_err_spec h hsv
+      rw [arm_unavail_err hst h]
+      refine ⟨⟨c13.trans hf, fun _ _ _ hh => (by simp [restartService] at hh), c6.trans hq, h1.trans ho⟩,
+        evs ++ [.pollReady i inc .err] ++ [.createService i], by rw [(restartService_frame s1 i).1, d]; simp, ?_⟩
+      intro x hx; simp only [List.mem_append, List.mem_singleton] at hx
+      rcases hx with (hx | rfl) | rfl
+      · exact nodiscard_of_PR e.isPR x hx
+      · rfl
+      · rfl
+  | restarting tok fp fok sc =>
+    cases fp with
+    | succ k =>
+      rw [arm_restarting_pending hst]
+      exact ⟨⟨hf, fun _ _ _ hh => (by cases hh), hq, ho⟩, [.facPoll tok .pending], rfl, by simp [Ev.isDiscard]⟩
+    | zero => cases fok with
+      | true =>
+        rw [arm_restarting_ok hst]
+        exact ⟨⟨hf, fun _ _ _ hh => (by cases hh), hq, ho⟩, [.facPoll tok .ok], rfl, by simp [Ev.isDiscard]⟩
+      | false =>
+        rw [arm_restarting_err hst]
+        exact ⟨⟨hf, fun t sf tx hh => (by simp [setFault, emit, hst] at hh), hq, ho⟩, [.facPoll tok .err], rfl, by simp [Ev.isDiscard]⟩
+  | available =>
+    rw [hst] at hsv
+    have hsp := availLoop_spec s.queue s hsv
+    have hso := availLoop_stopOpen s.queue s
+    rcases hal : availLoop s s.queue with ⟨s1, r⟩
+    rw [hal] at hsp hso
+    obtain ⟨k1, _, ⟨tr, cs, last, g1, g2, _, _, g5, g6, _⟩, _, _, _, _⟩ := hsp
+    simp only [core2, Prod.mk.injEq] at k1
+    obtain ⟨c1, c2, c3, c4, c5, c6, c7, c8, c9, c10, c11, c12⟩ := k1
+    have hlast : ∀ e ∈ last, e.isDiscard = false := by
+      by_cases hrr : ∃ i, r = .restart i
+      · obtain ⟨i, hi⟩ := hrr
+        obtain ⟨evs, inc, e1, e2⟩ := g5 i hi
+        intro x hx; rw [e1] at hx; simp only [List.mem_append, List.mem_singleton] at hx
+        rcases hx with hx | rfl
+        · exact nodiscard_of_PR e2.isPR x hx
+        · rfl
+      · exact nodiscard_of_PR (g6 (fun i hi => hrr ⟨i, hi⟩)).isPR
+    have hevs : ∀ e ∈ tr ++ last, e.isDiscard = false := by
+      intro x hx; simp only [List.mem_append] at hx
+      rcases hx with hx | hx
+      · exact g2.nodiscard x hx
+      · exact hlast x hx
+    have hrun1 : s1.finished = false ∧ s1.stopQ = [] ∧ s1.stopOpen = true := ⟨c11.trans hf, c5.trans hq, hso.trans ho⟩
+    cases r with
+    | pending =>
+      rw [arm_avail_pending hst hal]
+      exact ⟨⟨hrun1.1, fun t sf tx hh => (by rw [c3, hst] at hh; cases hh), hrun1.2.1, hrun1.2.2⟩, tr ++ last, by rw [g1]; simp, hevs⟩
+    | fault =>
+      rw [arm_avail_fault hst hal]
+      exact ⟨⟨hrun1.1, fun t sf tx hh => (by rw [c3, hst] at hh; cases hh), hrun1.2.1, hrun1.2.2⟩, tr ++ last, by rw [g1]; simp, hevs⟩
+    | toUnavailable =>
+      rw [arm_avail_unavail hst hal]
+      exact ⟨⟨hrun1.1, fun _ _ _ hh => (by cases hh), hrun1.2.1, hrun1.2.2⟩, tr ++ last, by rw [g1]; simp, hevs⟩
+    | restart i =>
+      rw [arm_avail_restart hst hal]
+      refine ⟨⟨hrun1.1, fun _ _ _ hh => (by simp [restartService] at hh), hrun1.2.1, hrun1.2.2⟩, tr ++ last ++ [.createService i],
+        by rw [(restartService_frame s1 i).1, g1]; simp, ?_⟩
+      intro x hx; simp only [List.mem_append, List.mem_singleton] at hx
+      rcases hx with (hx | hx) | rfl
+      · exact g2.nodiscard x hx
+      · exact hlast x hx
+      · rfl
+    | closed =>
+      -- the accept thread is gone; no `Stop`, the server is there: the worker waits
+      rw [arm_avail_closed hst hal, closedArm_nil_open hrun1.2.1 hrun1.2.2]
+      exact ⟨⟨hrun1.1, fun t sf tx hh => (by rw [show ({ s1 with stopWaker := true } : St).state = s1.state from rfl, c3, hst] at hh; cases hh), hrun1.2.1, hrun1.2.2⟩,
+        tr ++ last, by rw [g1]; simp, hevs⟩
+
+/-- **Never silently discarded while the worker runs**: a worker that is not shutting down, has no
+`Stop` waiting and whose server is alive takes connections out of its channel only to hand them to
+their service — whatever the readiness scripts, restarts, or the accept thread's exit — and does not finish. -/
+theorem pollW_running (f : Nat) : ∀ (s : St), Good s → Running s →
+    (Running (pollW f s) ∨ (pollW f s).fault = some .fuel) ∧ ∃ evs, (pollW f s).log = s.log ++ evs ∧ ∀ e ∈ evs, e.isDiscard = false := by
+  induction f with
+  | zero => intro s _ _; exact ⟨Or.inr rfl, [], by simp [pollW, setFault], by simp⟩
+  | succ f ih =>
+    intro s hg hr
+    have hbody : (body s).1 = (stopPhase s).1 ∧ (body s).2 = false ∨ body s = arm { s with stopWaker := true } := by
+      unfold body
+      rw [stopPhase_nil hr.2.2.1]
+      by_cases hfl : s.fault.isSome = true
+      · left; simp [hfl]
+      · right; simp [hfl]
+    have hr0 : Running { s with stopWaker := true } := hr
+    have hg0 : Good { s with stopWaker := true } := ⟨hg.svc, hg.lg.guarded, hg.lg.fifo, hg.lg.pairs⟩
+    simp only [pollW]
+    rcases hbody with ⟨h1, h2⟩ | h1
+    · rw [h2, h1, stopPhase_nil hr.2.2.1]
+      exact ⟨Or.inl hr0, [], by simp, by simp⟩
+    · obtain ⟨ra, evs, l, nd⟩ := arm_running hg0 hr0
+      rw [h1]
+      split
+      · obtain ⟨g1, _⟩ := hg0.arm hr0.1
+        obtain ⟨r2, evs2, l2, nd2⟩ := ih _ g1 ra
+        refine ⟨r2, evs ++ evs2, by rw [l2, l]; simp, ?_⟩
+        intro x hx; simp only [List.mem_append] at hx
+        rcases hx with hx | hx
+        · exact nd x hx
+        · exact nd2 x hx
+      · exact ⟨Or.inl ra, evs, l, nd⟩
+
+
 end ActixNet.Worker
